@@ -2,6 +2,7 @@ package main
 
 import (
 	"fmt"
+	"math"
 	"math/big"
 	"math/rand"
 	"sort"
@@ -92,8 +93,12 @@ func monitorC14(w *px.Writer, name string, ps []uint, d uint, before, after map[
 	}
 }
 
-func caseDivider(w *px.Writer, class string, ps []uint, d uint, m map[uint]uint) {
-	for _, name := range []string{"fair", "rate"} {
+func caseDivider(w *px.Writer, class string, ps []uint, d uint, m map[uint]uint, only ...string) {
+	names := []string{"fair", "rate"}
+	if len(only) > 0 {
+		names = only
+	}
+	for _, name := range names {
 		var v2 divider.Divider
 		var v1 p1.Divider
 		if name == "fair" {
@@ -260,6 +265,10 @@ func familyC14(w *px.Writer, r *rand.Rand, thorough bool) {
 		ps = randPrios(r, 2+r.Intn(4), 8)
 		ps[0] = uint(px.LogUniform(r, 1<<30)) + 10
 		caseDivider(w, "skewed", ps, uint(px.LogUniform(r, 1<<16)), map[uint]uint{})
+		// the top of the uint range - Fair only (Rate's float arithmetic is outside its stated
+		// range there): no intermediate sum may wrap
+		ps = randPrios(r, 2+r.Intn(4), 64)
+		caseDivider(w, "max-uint", ps, math.MaxUint64-uint(r.Intn(len(ps)+2)), map[uint]uint{}, "fair")
 	}
 
 	// random wide: 1..8 priorities up to 2^40, dividends up to 2^32 (sum < 2^53)
